@@ -249,17 +249,24 @@ type c04Got struct {
 // idle); it returns the messages received. idle is how long to wait for a
 // further message before the segment is considered drained.
 func c04Read(base string, lastseen string, count int, idle time.Duration, during func()) ([]c04Got, int) {
+	got, status, _ := c04ReadEOF(base, lastseen, count, idle, during)
+	return got, status
+}
+
+// c04ReadEOF also tells whether the node ended the response (true) or the reader gave up
+// after idle without any message (false).
+func c04ReadEOF(base string, lastseen string, count int, idle time.Duration, during func()) ([]c04Got, int, bool) {
 	ctx, cancel := context.WithCancel(context.Background())
 	defer cancel()
 	req, _ := http.NewRequestWithContext(ctx, "GET", base+fmt.Sprintf("/robustirc/v1/%d/messages?lastseen=%s", c04Session, lastseen), nil)
 	req.Header.Set("X-Session-Auth", c04Auth)
 	resp, err := http.DefaultClient.Do(req)
 	if err != nil {
-		return nil, 0
+		return nil, 0, true
 	}
 	defer resp.Body.Close()
 	if resp.StatusCode != 200 {
-		return nil, resp.StatusCode
+		return nil, resp.StatusCode, true
 	}
 	if during != nil {
 		go during()
@@ -290,14 +297,14 @@ func c04Read(base string, lastseen string, count int, idle time.Duration, during
 		select {
 		case g, ok := <-lines:
 			if !ok {
-				return got, 200
+				return got, 200, true
 			}
 			got = append(got, g)
 			if g.Data == "SENTINEL" || (count > 0 && len(got) >= count) {
-				return got, 200
+				return got, 200, true
 			}
 		case <-time.After(idle):
-			return got, 200
+			return got, 200, false
 		}
 	}
 }
@@ -332,6 +339,9 @@ func TestVerifC04(t *testing.T) {
 		c04Long(rep, rn, filepath.Join(dir, "c04-long"), base)
 		for k := 0; k < n/3+1; k++ {
 			c04Restore(rep, rn, filepath.Join(dir, fmt.Sprintf("c04-restore-%d", k)), base*104729+int64(k))
+		}
+		for k := 0; k < n/3+1; k++ {
+			c04Compact(rep, rn, filepath.Join(dir, fmt.Sprintf("c04-compact-%d", k)), base*32452843+int64(k))
 		}
 		for k := 0; k < n/3+1; k++ {
 			c04Closing(rep, rn, filepath.Join(dir, fmt.Sprintf("c04-closing-%d", k)), base*15485863+int64(k))
@@ -432,8 +442,15 @@ func c04Restore(rep *verifrep.R, rn *raft.Raft, dir string, seed int64) {
 				map[string]interface{}{"seed": seed, "restore": true})
 		}
 	}
-	got, _ := c04Read(r1.srv.URL, "0.0", 0, 5*time.Second, during)
+	got, _, ended := c04ReadEOF(r1.srv.URL, "0.0", 0, 5*time.Second, during)
 	<-restored
+	if !ended && len(got) < len(expected) {
+		// the response is still open (pings keep it alive, so a client has no reason to
+		// reconnect) but nothing has arrived for 5s although everything was added long ago
+		rep.Violation("C04", "never-delivered", fmt.Sprintf("open connection, output stream replaced while the request was open (%d batches before, new stream refilled to %d): the request stays open but delivered only %d of %d messages (stopped after %v)", nOld, refill, len(got), len(expected), lastOf(got)),
+			map[string]interface{}{"seed": seed, "restore": true})
+		return
+	}
 	if len(got) < len(expected) && len(got) > 0 {
 		// the connection may have been ended by the node; the client resumes like any client would
 		for tries := 0; tries < 3 && len(got) < len(expected); tries++ {
@@ -449,6 +466,102 @@ func c04Restore(rep *verifrep.R, rn *raft.Raft, dir string, seed int64) {
 	rep.Cases(len(got) + len(resumed))
 	rep.Case(fmt.Sprintf("restore|refill=%d", []string{"all", "partial"}[b2i(refill < nOld)]))
 	rep.Obs("restore-under-open-request.messages-read", len(got)+len(resumed))
+}
+
+// c04Compact: the node compacts its output while a GetMessages request waits for news: the
+// snapshot deletes batches oldest first, possibly up to and including the newest one (a quiet
+// network, or a node that lags). The resume point of the client is newer than everything
+// deleted. Whatever is added afterwards must reach the open request, completely and in order.
+func c04Compact(rep *verifrep.R, rn *raft.Raft, dir string, seed int64) {
+	os.MkdirAll(dir, 0755)
+	defer os.RemoveAll(dir)
+	rng := rand.New(rand.NewSource(seed))
+	p := c04Plan{Seed: seed, Replicas: 1}
+	nOld, nNew := 3+rng.Intn(12), 2+rng.Intn(5)
+	id := uint64(10)
+	for k := 0; k < nOld+nNew; k++ {
+		b := c04Batch{Id: id}
+		nr := 2 + rng.Intn(4)
+		for r := 1; r <= nr; r++ {
+			b.Replies = append(b.Replies, c04Reply{Reply: uint64(r), Mine: rng.Intn(3) != 0 || r == nr, Data: fmt.Sprintf("R%d.%d", id, r)})
+		}
+		p.Batches = append(p.Batches, b)
+		id += 1 + uint64(rng.Intn(3))
+	}
+	p.Batches = append(p.Batches, c04Batch{Id: id + 3, Replies: []c04Reply{{Reply: 1, Mine: true, Data: "SENTINEL"}}})
+	// the client is either up to date with this node, or has read part of the next batch elsewhere
+	ahead := rng.Intn(2) == 0
+	last := p.Batches[nOld-1]
+	lastseen := fmt.Sprintf("%d.%d", last.Id, last.Replies[len(last.Replies)-1].Reply)
+	var expected []c04Got
+	for bi, b := range p.Batches[nOld:] {
+		for ri, r := range b.Replies {
+			if bi == 0 && ahead && ri == 0 {
+				lastseen = fmt.Sprintf("%d.%d", b.Id, r.Reply)
+				continue
+			}
+			if r.Mine {
+				expected = append(expected, c04Got{b.Id, r.Reply, r.Data})
+			}
+		}
+	}
+	// how much the compaction deletes: everything, everything but the newest, half
+	del := []int{nOld, nOld, nOld - 1, nOld / 2}[rng.Intn(4)]
+	o1, err := outputstream.NewOutputStream(dir)
+	if err != nil {
+		panic(err)
+	}
+	i := ircserver.NewIRCServer("robustirc.net", time.Now())
+	i.CreateSession(robust.Id{Id: c04Session}, c04Auth, time.Now())
+	h := NewHTTP(i, rn, nil, o1, nil, "robustirc.net", "pw", dir, "c04", true, 3)
+	mux := http.NewServeMux()
+	mux.HandleFunc("/robustirc/v1/", h.DispatchPublic)
+	r1 := &c04Replica{out: o1, srv: httptest.NewServer(mux)}
+	r1.addUpTo(&p, nOld)
+	done := make(chan struct{})
+	during := func() {
+		defer close(done)
+		time.Sleep(time.Duration(150+rng.Intn(200)) * time.Millisecond)
+		for k := 0; k < del; k++ {
+			if err := o1.Delete(robust.Id{Id: p.Batches[k].Id}); err != nil {
+				panic(err)
+			}
+		}
+		time.Sleep(time.Duration(rng.Intn(30)) * time.Millisecond)
+		for k := nOld + 1; k <= len(p.Batches); k++ {
+			time.Sleep(time.Duration(rng.Intn(4)) * time.Millisecond)
+			r1.addUpTo(&p, k)
+		}
+	}
+	defer func() {
+		<-done
+		r1.srv.CloseClientConnections()
+		r1.srv.Close()
+		time.Sleep(350 * time.Millisecond)
+		o1.InterruptGetNext()
+		time.Sleep(20 * time.Millisecond)
+		o1.Close()
+	}()
+	got, _ := c04Read(r1.srv.URL, lastseen, 0, 4*time.Second, during)
+	<-done
+	what := fmt.Sprintf("request with lastseen=%s open while the node compacted %d of its %d batches (client ahead of the node: %v), then %d batches were added", lastseen, del, nOld, ahead, nNew+1)
+	for k, g := range got {
+		if k >= len(expected) || g != expected[k] {
+			key := "gap"
+			if k < len(expected) && (g.Id < expected[k].Id || (g.Id == expected[k].Id && g.Reply < expected[k].Reply)) {
+				key = "duplicate"
+			}
+			rep.Violation("C04", key, fmt.Sprintf("%s: message #%d is %d.%d", what, k, g.Id, g.Reply), map[string]interface{}{"seed": seed, "compact": true})
+			return
+		}
+	}
+	if len(got) != len(expected) {
+		rep.Violation("C04", "never-delivered", fmt.Sprintf("%s: received %d of %d messages (stopped after %v)", what, len(got), len(expected), lastOf(got)),
+			map[string]interface{}{"seed": seed, "compact": true})
+	}
+	rep.Cases(len(got))
+	rep.Case(fmt.Sprintf("compact|ahead=%v|deleted=%s", ahead, []string{"all", "part"}[b2i(del < nOld)]))
+	rep.Obs("compaction-under-open-request.messages-read", len(got))
 }
 
 // c04Closing: the session of a client that has read everything is ended (QUIT by DELETE,
